@@ -49,7 +49,8 @@ def gen_tm(rng, values, sep):
                                                   "^.$", "^..$"])}
 
 
-def gen_rule(rng, rid, exprs):
+def gen_rule(rng, rid, exprs, rich=False):
+    """rich: also values outside ASCII (UTF-8 in the JSON case; only for harnesses reading strings as UTF-8)"""
     routes = []
     for _ in range(rng.choice([1, 1, 1, 2, 2, 3])):
         e = rng.choice(exprs)
@@ -57,7 +58,8 @@ def gen_rule(rng, rid, exprs):
         names = [n for n in gen_trie.wild_names(e) if n != "*"]
         if names and rng.random() < 0.45:
             for n in rng.sample(names, rng.choice([1, 1, min(2, len(names))])):
-                pp.append(dict(gen_tm(rng, ["a", "b", "ab", "abc", "v1", "v2", "[id]", "a b", "a/b", "a%2Fb", "A", "ab/c", "\u00e9", "\u20ac", "Admin-1", "v1.0"], "/"),
+                pp.append(dict(gen_tm(rng, ["a", "b", "ab", "abc", "v1", "v2", "[id]", "a b", "a/b", "a%2Fb", "A", "ab/c", "Admin-1", "v1.0"] +
+                                       (["\u00e9", "\u20ac"] if rich else []), "/"),
                                name=n))
         routes.append({"path": e, "pp": pp})
     methods = []
@@ -186,7 +188,7 @@ def gen_repo_case(rng, max_ops=12):
                 if x < 0.5:
                     rules.append(r)                      # unchanged
                 elif x < 0.75:
-                    r2 = gen_rule(rng, r["id"], exprs)   # changed, same id
+                    r2 = gen_rule(rng, r["id"], exprs, rich=True)   # changed, same id
                     rules.append(r2)
                 # else removed
             if rng.random() < 0.4:
@@ -196,7 +198,7 @@ def gen_repo_case(rng, max_ops=12):
             rid = "r%d" % nid[0]
             if rules and rng.random() < 0.05:
                 rid = rules[0]["id"]     # duplicate id inside one rule set
-            rules.insert(rng.randrange(len(rules) + 1), gen_rule(rng, rid, exprs))
+            rules.insert(rng.randrange(len(rules) + 1), gen_rule(rng, rid, exprs, rich=True))
         return rules
 
     def find_op():
